@@ -204,9 +204,9 @@ let run_case op toks =
               let idxs = all_indices xs in
               let strides = List.map (fun k -> strided_stride m (nat_of_int k)) (seq r) in
               let ml =
-                match opt_all (List.map (strided_map t m) idxs) with
-                | None -> "ub"
-                | Some offs ->
+                match opt_all (List.map (strided_map t m) idxs), strided_required t m with
+                | None, _ | _, None -> "ub"
+                | Some offs, Some rq ->
                     if List.exists (fun s -> match s with Ok _ -> false | _ -> true) strides then "contract"
                     else
                       let small = dom && z_le (stride_required xs sv) (zi 100000) && repr t (product xs) in
@@ -219,10 +219,11 @@ let run_case op toks =
                                                 match List.nth_opt buf (int_of_z o) with Some a -> zs a | None -> "oob") offs in
                           [ "el"; string_of_int (List.length els) ] @ els
                           @ [ zs (mds_size t m.st_ext); zs (List.nth m.st_strides (r - 1)) ]
+                          @ (if z_le (stride_required xs sv) (zi 64) then [ "mda"; "1" ] else [])
                         end in
                       join ([ "ok"; string_of_int r ] @ zl m.st_strides
                                @ List.map (fun s -> match s with Ok v -> zs v | _ -> "?") strides
-                               @ zl (extents_list t m.st_ext)
+                               @ zl (extents_list t m.st_ext) @ [ zs rq ]
                                @ [ string_of_int (List.length offs) ] @ zl offs @ tail) in
               let sl =
                 if not dom then "na"
@@ -231,8 +232,9 @@ let run_case op toks =
                   let tail = if z_le (stride_required xs sv) (zi 100000) && repr t (product xs)
                     then [ "el"; string_of_int (List.length so) ] @ List.map (fun o -> zs (Z.add (zi 1000) o)) so
                          @ [ zs (product xs); zs (List.nth sv (r - 1)) ]
+                         @ (if z_le (stride_required xs sv) (zi 64) then [ "mda"; "1" ] else [])
                     else [] in
-                  join ([ "ok"; string_of_int r ] @ zl sv @ zl sv @ zl xs
+                  join ([ "ok"; string_of_int r ] @ zl sv @ zl sv @ zl xs @ [ zs (stride_required xs sv) ]
                         @ [ string_of_int (List.length so) ] @ zl so @ tail) in
               (ml, sl)
             end
@@ -288,6 +290,25 @@ let run_case op toks =
       let e2 = ext_convert t2 p2 t1 src in
       match op with
       | "ext_conv" -> (ext_line t2 e2, if ok then ext_spec_line p2 xs else "na")
+      | "map_conv" when (let k = peek_kind toks in k = "SL" || k = "SR") ->
+          let kind = next_str toks in
+          let l = if kind = "SL" then LLeft else LRight in
+          let m = strided_of_layout l t2 p2 t1 src in
+          let indom = ok && repr t2 (product xs) && repr t1 (product xs) in
+          let rq = if indom then (match strided_required t2 m with Some v -> [ zs v ] | None -> [ "ub" ]) else [] in
+          let ml = join ([ ext_line t2 m.st_ext ] @ zl m.st_strides @ rq) in
+          let r = List.length xs in
+          let sst = List.map (fun k -> match l with LLeft -> stride_left xs (nat_of_int k) | LRight -> stride_right xs (nat_of_int k)) (seq r) in
+          let dom = indom && all_repr t2 sst && all_repr t1 sst in
+          (ml, if dom then join ([ ext_spec_line p2 xs ] @ zl sst @ [ zs (product xs) ]) else "na")
+      | "map_conv" when (let k = peek_kind toks in k = "LS" || k = "RS") ->
+          let kind = next_str toks in
+          let l = if kind = "LS" then LLeft else LRight in
+          let sm = strided_of_layout l t1 p1 t1 src in
+          let e2' = layout_of_strided t2 p2 t1 sm in
+          let ml = join [ ext_line t2 e2'; zs (lay_required l t2 e2') ] in
+          let ok = ok && repr t2 (product xs) && repr t1 (product xs) in
+          (ml, if ok then join [ ext_spec_line p2 xs; zs (product xs) ] else "na")
       | "map_conv" ->
           let kind = next_str toks in
           let l = (match kind with "LL" | "LR" -> LLeft | _ -> LRight) in
@@ -323,7 +344,7 @@ let run_case op toks =
                                      match List.nth_opt buf (int_of_z o) with Some a -> zs a | None -> "oob") offs in
             join ([ "ok" ] @ zl tx @ List.map pat_tok te.pat
                   @ [ zs (tr_required l t ne); zs a; zs b; string_of_int (List.length offs) ] @ zl offs
-                  @ [ "md"; zs (mds_size t te); b2s (mds_empty t te) ] @ zl tx @ [ zs (List.hd tx) ]
+                  @ [ "md"; zs (mds_size t te); b2s (mds_empty t te) ] @ zl tx @ [ zs (List.hd tx); "1" ]
                   @ [ string_of_int (List.length els) ] @ els)
         | _ -> "contract" in
       let sl =
@@ -335,7 +356,7 @@ let run_case op toks =
           join ([ "ok" ] @ zl xs @ List.map pat_tok p
                 @ [ zs (product xs); zs (spec_stride vl xs 0); zs (spec_stride vl xs 1);
                     string_of_int (List.length so) ] @ zl so
-                @ [ "md"; zs (product xs); b2s (z_eq (product xs) Z0) ] @ zl xs @ [ zs (List.hd xs) ]
+                @ [ "md"; zs (product xs); b2s (z_eq (product xs) Z0) ] @ zl xs @ [ zs (List.hd xs); "1" ]
                 @ [ string_of_int (List.length so) ] @ List.map (fun o -> zs (Z.add (zi 1000) o)) so) in
       (ml, sl)
     end
@@ -478,13 +499,19 @@ let run_case op toks =
                 join [ span_line buf parent; zs (Z.mul parent.s_size (zi 4)); b2s (z_eq parent.s_size Z0);
                        zs parent.s_size; zs addr; zs parent.s_off;
                        zs (Z.sub (Z.add parent.s_off parent.s_size) (zi 1)); zs parent.s_off; zs parent.s_size;
-                       bytes_line (sp_as_bytes (zi 4) parent); bytes_line (sp_as_bytes (zi 4) parent) ]
+                       bytes_line (sp_as_bytes (zi 4) parent); bytes_line (sp_as_bytes (zi 4) parent);
+                       zs (sp_size_bytes (zi 3) parent); bytes_line (sp_as_bytes (zi 3) parent);
+                       zs (Z.mul addr (zi 3)) ]
             | r -> res_tok (fun _ -> "?") r in
           let sl =
             if z_lt i len then
               join [ spec_span_line buf start len x; zs (Z.mul len (zi 4)); b2s (z_eq len Z0); zs len;
                      zs (Z.add start i); zs start; zs (Z.sub (Z.add start len) (zi 1)); zs start; zs len;
-                     spec_bytes; spec_bytes ]
+                     spec_bytes; spec_bytes;
+                     zs (Z.mul len (zi 3));
+                     join [ zs (Z.mul start (zi 3)); zs (Z.mul len (zi 3));
+                            (match x with None -> "-1" | Some n -> zs (Z.mul n (zi 3))) ];
+                     zs (Z.mul (Z.add start i) (zi 3)) ]
             else "na" in
           (ml, sl)
       | _ -> raise Not_found
